@@ -296,7 +296,7 @@ func (f *c25Fault) install(kv *fakeNode) func() int {
 
 func TestC25(t *testing.T) {
 	rec := ev.New(t, "C25")
-	rec.Rule("every method of TunnelService and KeylessService (enumerated by reflection) x caller class {no delegation (direct handler + hook call), no certificate, certificate whose token was never registered (fresh / extension / prefix of a registered token / v2 form / near-collisions of five registered tokens [plain, legacy base64 with slashes, non-ASCII, pre-PKI, v2] under 34 transformations: path-unclean forms, case, whitespace, truncation/extension, padding, percent-encoding, unicode decomposition and look-alikes, alphabet swaps), certificate without a usable identity, registered (v1, v2, pre-PKI record)} x storage fault {none; Get / all reads / all operations failing, for the token key only or any key, first call or every call, with a plain, retryable-chord, node-gone or deadline error} x request body from a generic protoreflect filler (biased to registered hostnames and known node addresses), through the real path DynamicTunnelClient -> transport -> StreamRouter -> http.Server/chi (recoverer, limiter, 1 KiB body limit) -> twirp hook -> handler. First a deterministic sweep of all method x class pairs with an empty body, then rapid-generated cases. Non-trivial: a method outside the {Ping, RegisterIdentity} allow-list whose body is non-empty (or whose request type has no fields at all). Distinct = (method, class, caller variant, body bytes).")
+	rec.Rule("every method of TunnelService and KeylessService (enumerated by reflection) x caller class {no delegation (direct handler + hook call), no certificate, certificate whose token was never registered (fresh / extension / prefix of a registered token / v2 form / near-collisions of five registered tokens [plain, legacy base64 with slashes, non-ASCII, pre-PKI, v2] under 34 transformations: path-unclean forms, case, whitespace, truncation/extension, padding, percent-encoding, unicode decomposition and look-alikes, alphabet swaps), certificate without a usable identity, registered (v1, v2, pre-PKI record)} x storage fault {none; Get / all reads / all operations failing, for the token key only or any key, first call or every call, with a plain, retryable-chord, node-gone or deadline error} x request body from a generic protoreflect filler (biased to registered hostnames and known node addresses), through the real path DynamicTunnelClient -> transport -> StreamRouter -> http.Server/chi (recoverer, limiter, 1 KiB body limit) -> twirp hook -> handler. First a deterministic sweep of all method x class pairs with an empty body, then two-step histories (a fresh certificate holder's RegisterIdentity fails because every DHT operation on token records fails - four error kinds - and leaves no record; the same caller then calls every gated method on healthy storage and must be refused like any never-registered caller), then rapid-generated cases (one in twelve of them such a two-step history with a generated body). Non-trivial: a method outside the {Ping, RegisterIdentity} allow-list whose body is non-empty (or whose request type has no fields at all). Distinct = (method, class, caller variant, body bytes).")
 	rec.Assume("a refusal by the authentication gate is observable as a twirp `unauthenticated` error on the wire (as the hook and extractAuthenticated produce), and as any error for a handler/hook invoked without a delegation",
 		"under an injected storage fault any refusal code is accepted for callers that must be refused; a registered caller may then be refused too, and a call the gate refuses (unauthenticated) must still change nothing",
 		"the transport has verified the certificate chain; the server sees only the parsed certificate",
@@ -506,6 +506,9 @@ func TestC25(t *testing.T) {
 	}
 
 	comboSeen := map[string]int{}
+	// forceUnreg: the never-registered caller of the next checkOne call (a client whose
+	// registration attempt has just failed), instead of one derived from (variant, salt)
+	var forceUnreg *client
 
 	checkOne := func(t tb, m rpcMethod, class string, variant int, salt string, req proto.Message, fault *c25Fault) {
 		body, _ := proto.Marshal(req)
@@ -539,6 +542,9 @@ func TestC25(t *testing.T) {
 			vlabel = "nil-certificate"
 		case clUnregistered:
 			env.curCert, vlabel = unregisteredVariant(variant%(baseVariants+nNear), salt, m.Name == "RegisterIdentity")
+			if forceUnreg != nil {
+				env.curCert, vlabel = forceUnreg, "registration-failed-just-before"
+			}
 			env.noCert = false
 			if registeredTokens[env.curCert.Token] && !c25AllowListed(m.Name) {
 				t.Fatalf("harness: token %q of the never-registered class is registered", env.curCert.Token)
@@ -675,8 +681,54 @@ func TestC25(t *testing.T) {
 		}
 	}
 
+	// two-step histories: a certificate holder tries to register while the DHT refuses every
+	// operation on token records, so the registration fails and no record is stored; the same
+	// caller then calls a method behind the gate on healthy storage. It is a never-registered
+	// caller: refused by the gate, nothing changes.
+	failedSeq := 0
+	failedRegistrationThenCall := func(t tb, m rpcMethod, req proto.Message, errName string) {
+		failedSeq++
+		c := newClientV1("F", 3000+uint64(failedSeq), fmt.Sprintf("tok-registration-failed-%d", failedSeq))
+		env.curCert, env.noCert = c, false
+		fired := (&c25Fault{Ops: "all", Keys: "token-key", Count: "every", Err: errName}).install(fx.kv)
+		_, rerr := env.callThrough(methodByName["RegisterIdentity"], &protocol.RegisterIdentityRequest{})
+		fx.kv.setFault(nil)
+		stored, _ := fx.kv.MemoryKV.Get(context.Background(), []byte("/tunnel/client/token/"+c.Token))
+		if rerr == nil || len(stored) > 0 {
+			// the registration got through after all: a registered caller from now on
+			registeredTokens[c.Token] = true
+			rec.Add("failed_registration_histories_where_registration_succeeded", 1)
+			return
+		}
+		if why := machineryError(rerr); why != "" {
+			rec.Inconclusive("in-memory transport error during a registration")
+			return
+		}
+		rec.Add("failed_registration_histories", 1)
+		if fired() > 0 {
+			rec.Add("failed_registration_histories_fault_fired", 1)
+		}
+		forceUnreg = c
+		defer func() { forceUnreg = nil }()
+		checkOne(t, m, clUnregistered, 0, "after-failed-registration", req, nil)
+	}
+	for _, m := range env.methods {
+		if c25AllowListed(m.Name) {
+			continue
+		}
+		for _, en := range c25FaultErrNames {
+			failedRegistrationThenCall(t, m, m.newRequest(), en)
+		}
+	}
+
 	ev.RapidCheck(t, 2500, 60000, func(t *rapid.T) {
 		m := env.methods[rapid.IntRange(0, len(env.methods)-1).Draw(t, "method")]
+		if !c25AllowListed(m.Name) && rapid.IntRange(0, 11).Draw(t, "afterFailedRegistration") == 0 {
+			req := m.newRequest()
+			fillMessage(t, req.ProtoReflect(), 0, env.dict, m.Name)
+			failedRegistrationThenCall(t, m, req, rapid.SampledFrom(c25FaultErrNames).Draw(t, "fault-err"))
+			return
+		}
 		class := c25Classes[rapid.IntRange(0, len(c25Classes)-1).Draw(t, "class")]
 		variant := rapid.IntRange(0, 4*(baseVariants+nNear)-1).Draw(t, "variant")
 		salt := rapid.StringOfN(rapid.RuneFrom([]rune("abc012")), 0, 3, 3).Draw(t, "salt")
